@@ -481,13 +481,13 @@ func possibleOpcodes(fn *ssa.Function, v ssa.Value) (ops []int64, computed bool)
 // ---------- L2 ----------
 
 type bitField struct {
-	name   string
-	shift  int64
-	width  int64 // -1 unknown
-	signed bool
-	lo, hi int64 // clip bounds (encoder)
+	name    string
+	shift   int64
+	width   int64 // -1 unknown
+	signed  bool
+	lo, hi  int64 // clip bounds (encoder)
 	hasClip bool
-	pos    token.Pos
+	pos     token.Pos
 }
 
 func constOf(info *types.Info, e ast.Expr) (int64, bool) {
